@@ -8,7 +8,7 @@
 (***************************************************************************)
 EXTENDS Layouts, Gen, Json
 
-CONSTANTS MaxDim, MaxRankT, LayA, LayB, Modes, Kinds
+CONSTANTS MaxDim, MaxRankT, LayA, LayB, LayD, Modes, Kinds
 
 Dims == 1..MaxDim
 VecForms(n) == {<<n>>, <<n, 1>>, <<1, n>>}
@@ -20,22 +20,27 @@ AxisPairs(sa, sb, k) ==
         /\ \A i, j \in 1..k : i # j => pa[i] # pa[j] /\ pb[i] # pb[j]
         /\ \A i \in 1..k : sa[pa[i] + 1] = sb[pb[i] + 1]}
 
-Program(kind, sa, sb, la, lb, axA, axB, mode) ==
+Program(kind, sa, sb, la, lb, ld, axA, axB, mode) ==
     LET ra == Recipe(la, sa, 1, "")
         rb == Recipe(lb, sb, 1 + ra.n, "")
         p  == ProductSpec([heap |-> [i \in 1..1 |-> <<"z">>], allocs |-> <<>>, live |-> <<[shape |-> sa, cells |-> [i \in 1..Prod(sa) |-> 1]], [shape |-> sb, cells |-> [i \in 1..Prod(sb) |-> 1]]>>],
                           kind, 1, 2, axA, axB)
         nd == 1 + ra.n + rb.n
         needD == mode \in {"reuse", "incr"}
-    IN ra.ops \o rb.ops
-         \o (IF needD THEN <<Op("New", 0, <<p.shape, "C", "">>)>> ELSE <<>>)
-         \o <<Op("Product", ra.h, <<kind, rb.h, axA, axB, mode, IF needD THEN nd ELSE 0>>)>>
+        rd == IF needD THEN Recipe(ld, p.shape, nd, "") ELSE [ops |-> <<>>, h |-> 0, n |-> 0]   \* the destination has a layout of its own
+    IN ra.ops \o rb.ops \o rd.ops
+         \o <<Op("Product", ra.h, <<kind, rb.h, axA, axB, mode, rd.h>>)>>
 
 (* shape of the result, needed to build a destination: computed on dummy cells *)
 ResultOK(kind, sa, sb, axA, axB) ==
     ProductSpec([heap |-> [i \in 1..1 |-> <<"z">>], allocs |-> <<>>,
                  live |-> <<[shape |-> sa, cells |-> [i \in 1..Prod(sa) |-> 1]], [shape |-> sb, cells |-> [i \in 1..Prod(sb) |-> 1]]>>],
                 kind, 1, 2, axA, axB).ok
+
+ResultShape(kind, sa, sb, axA, axB) ==
+    ProductSpec([heap |-> [i \in 1..1 |-> <<"z">>], allocs |-> <<>>,
+                 live |-> <<[shape |-> sa, cells |-> [i \in 1..Prod(sa) |-> 1]], [shape |-> sb, cells |-> [i \in 1..Prod(sb) |-> 1]]>>],
+                kind, 1, 2, axA, axB).shape
 
 Combos(kind) ==
     CASE kind = "MatMul"    -> {<<<<m, k>>, <<k, n>>, <<>>, <<>>>> : m \in Dims, k \in Dims, n \in Dims}
@@ -49,12 +54,14 @@ Combos(kind) ==
 
 Next ==
     /\ steps = <<>>
-    /\ \/ \E kind \in Kinds \ {"Trace"}, la \in LayA, lb \in LayB, mode \in Modes :
+    /\ \/ \E kind \in Kinds \ {"Trace"}, la \in LayA, lb \in LayB, ld \in LayD, mode \in Modes :
             \E c \in Combos(kind) :
                /\ LayoutOK(la, c[1]) /\ LayoutOK(lb, c[2])
                /\ ResultOK(kind, c[1], c[2], c[3], c[4])
                /\ (kind = "Inner" => mode = "safe")
-               /\ DoAll(Program(kind, c[1], c[2], la, lb, c[3], c[4], mode))
+               /\ (mode \in {"reuse", "incr"} => LayoutOK(ld, ResultShape(kind, c[1], c[2], c[3], c[4])))
+               /\ (mode \notin {"reuse", "incr"} => ld = "C")
+               /\ DoAll(Program(kind, c[1], c[2], la, lb, ld, c[3], c[4], mode))
        \/ /\ "Trace" \in Kinds
           /\ \E s \in ShapesOfRank(2, MaxDim), la \in LayA :
                /\ LayoutOK(la, s)
